@@ -399,6 +399,54 @@ def random_cases(rng, count):
         yield x, t, mv, deep, "rand-" + kind
 
 
+def check_hub(rep, x, horizontal, tag):
+    """Long series with hubs (a node seen by hundreds of samples): the clauses that do not need the exact-rational
+    adjacency oracle - degree split, time-directed clustering against pair counting on the library's own adjacency,
+    exchange of retarded / advanced under time reversal.  Integer-valued series, unit time steps."""
+    pre = "hvg" if horizontal else "nvg"
+    W = {"kind": "hub", "tag": tag, "horizontal": horizontal, "n": len(x), "x": [int(v) for v in x]}
+    rep.case((pre, "hub", tag, len(x)), nontrivial=True)
+    try:
+        xs = [F(int(v)) for v in x]
+        g = build(xs, None, horizontal, False)
+        gr = build(xs[::-1], None, horizontal, False)
+        A = np.array(g.adjacency).astype(np.int64)
+        n = A.shape[0]
+        deg = np.array(g.degree(), dtype=float)
+        ret, adv = np.array(g.retarded_degree(), dtype=float), np.array(g.advanced_degree(), dtype=float)
+        low = np.tril(A, -1)
+        if not (np.array_equal(ret, low.sum(axis=1)) and np.array_equal(ret + adv, deg)):
+            rep.fail(pre + "/degree-split", W, "hub series: retarded + advanced != degree or retarded != past row sum")
+        for past, meth, other in ((True, "retarded_local_clustering", "advanced_local_clustering"),
+                                  (False, "advanced_local_clustering", "retarded_local_clustering")):
+            M = low if past else np.triu(A, 1)          # M[i, j] = 1 iff j is a past (future) neighbour of i
+            k = M.sum(axis=1).astype(float)
+            closed = np.einsum("ij,jk,ik->i", M, A, M) / 2.0
+            exp = np.where(k >= 2, closed / np.maximum(k * (k - 1) / 2.0, 1.0), 0.0)
+            got = np.array(getattr(g, meth)(), dtype=float)
+            bad = np.flatnonzero(~(np.abs(got - exp) <= 1e-9))
+            if bad.size:
+                i = int(bad[0])
+                rep.fail(pre + "/" + meth.split("_")[0] + "-clustering", W,
+                         "hub series: node %d (k=%d) got %r expected %r" % (i, int(k[i]), float(got[i]), float(exp[i])))
+            mir = np.array(getattr(gr, other)(), dtype=float)[::-1]
+            if not np.all(np.abs(got - mir) <= 1e-9):
+                rep.fail(pre + "/reversal-exchange-clustering", W, "hub series: %s differs from the mirrored %s of the reversed series" % (meth, other))
+    except Exception as e:                                          # noqa: BLE001
+        rep.fail(pre + "/hub-exception", W, "%s: %s" % (type(e).__name__, e))
+
+
+def hub_cases(rng, tier):
+    for n in ((190, 260) if tier == "quick" else (190, 260, 400, 700)):
+        noise = rng.randint(0, 50, size=n)
+        a = noise.copy(); a[n - 1] = 5000                     # noqa: E702   peak at the end: seen by (almost) all
+        b = noise.copy(); b[n // 2] = 5000                    # noqa: E702   peak in the middle
+        c = np.zeros(n, dtype=int); c[n - 1] = 1              # noqa: E702   zeros then one peak
+        d = (np.arange(n) - n // 3) ** 2 // 16                       # convex: (nearly) every pair sees each other
+        for tag, x in (("peak-end", a), ("peak-mid", b), ("zeros-peak", c), ("convex", d)):
+            yield tag, x
+
+
 # ------------------------------------------------------------------ main
 
 def main():
@@ -413,6 +461,10 @@ def main():
     if args.replay:
         with open(args.replay) as f:
             w = json.load(f)["witness"]
+        if w.get("kind") == "hub":
+            check_hub(rep, np.array(w["x"], dtype=int), bool(w["horizontal"]), w.get("tag", "replay"))
+            rep.finish()
+            return
         x, t, hor, mv = unwit(w)
         check_case(rep, x, t, hor, mv, deep=True, tag="replay")
         rep.finish()
@@ -430,6 +482,9 @@ def main():
     for x, t, mv, deep, tag in random_cases(rng, nrand):
         for hor in (False, True):
             check_case(rep, x, t, hor, mv, deep=deep, tag=tag)
+    for tag, x in hub_cases(np.random.RandomState(args.seed + 77), args.tier):
+        for hor in (False, True):
+            check_hub(rep, x, hor, tag)
     rep.finish()
 
 
